@@ -232,10 +232,18 @@ impl<F: Write + Seek> MiniAllocator<F> {
     ) -> io::Result<u32> {
         debug_assert_ne!(start_mini_sector, consts::END_OF_CHAIN);
         let mut last_mini_sector = start_mini_sector;
+        let mut num_mini_sectors = 0;
         loop {
-            let next = self.minifat[last_mini_sector as usize];
+            let next = self.next_mini_sector(last_mini_sector)?;
             if next == consts::END_OF_CHAIN {
                 break;
+            }
+            num_mini_sectors += 1;
+            if num_mini_sectors > self.minifat.len() {
+                malformed!(
+                    "mini chain starting at {} has a loop",
+                    start_mini_sector
+                );
             }
             last_mini_sector = next;
         }
